@@ -6,7 +6,8 @@
     broadcasts, any thread counts), every interleaving of caller and workers,
     any subset of panicking calls, spurious wake-ups included.  [code_cfg] is
     the configuration read from pool.rs by tools/extract_consts.py. *)
-From DivanV Require Import Base.Res Generated.Consts Model.Pool Proofs.Pool Proofs.PoolLive Proofs.PoolCalls.
+From DivanV Require Import Base.Res Generated.Consts Model.Pool Proofs.Pool Proofs.PoolLive Proofs.PoolCalls
+  Proofs.PoolViews Proofs.PoolSlots.
 Import PoolM.
 
 (** Obligations on the generated constants: the worker unparks iff [fetch_sub]
@@ -72,6 +73,39 @@ Theorem C06_no_access_after_return : forall scr s,
   /\ Forall (fun w => any_pre w = true -> pre_dec (cur s) w = true /\ alive s = true) (ws s).
 Proof. exact (fun scr s => no_access_after_return code_cfg scr s C06_cfg_good). Qed.
 Print Assumptions C06_no_access_after_return.
+
+(** Publication.  For ANY configuration with the code's control shape whose
+    decrement is at least a release and whose load is at least an acquire, the
+    caller's view at the return of a broadcast contains every call of that
+    broadcast (the return happens-after all [n + 1] calls). *)
+Theorem C06_publication_generic : forall c scr s r,
+  good c -> is_release (c_dec c) = true -> is_acquire (c_load c) = true ->
+  reachable c scr s -> In r (returned s) ->
+  view_has_all (r_b r) (r_n r) (r_view r) = true
+  /\ forall i, i <= r_n r -> In (r_b r, i) (r_view r).
+Proof. exact publication. Qed.
+Print Assumptions C06_publication_generic.
+
+(** ... and the code's orderings (the generated constants) satisfy the two
+    obligations. *)
+Theorem C06_publication : forall scr s r,
+  reachable code_cfg scr s -> In r (returned s) ->
+  view_has_all (r_b r) (r_n r) (r_view r) = true
+  /\ forall i, i <= r_n r -> In (r_b r, i) (r_view r).
+Proof. exact (fun scr s r => publication code_cfg scr s r C06_cfg_good C06_dec_is_release C06_load_is_acquire). Qed.
+Print Assumptions C06_publication.
+
+(** [par_extend]: the slots handed back by a returned broadcast are in index
+    order, slot [i] = [Some i] (the result of call [i]) unless call [i]
+    panicked, in which case it is [None]; later broadcasts do not disturb them. *)
+Theorem C06_results_indexed : forall scr s r,
+  reachable code_cfg scr s -> In r (returned s) ->
+  r_slots r = expected_slots s (r_b r) (r_n r)
+  /\ length (r_slots r) = S (r_n r)
+  /\ forall i, i <= r_n r ->
+       nth_error (r_slots r) i = Some (if vmem (r_b r, i) (panics s) then None else Some i).
+Proof. exact (fun scr s r => results_indexed_returned code_cfg scr s r C06_cfg_good). Qed.
+Print Assumptions C06_results_indexed.
 
 (** Worker threads are created only when a broadcast needs more than exist
     (exactly the missing ones, appended, idle) and no step ever removes one. *)
